@@ -453,6 +453,10 @@ def step (pool : Pool) (cmd : Json) : Pool × Json :=
       match (strOf? h).bind pool.get? with
       | some a => (pool, .bool (uniform a))
       | none => (pool, err "no handle")
+    | "$uniformt", [h] =>
+      match (strOf? h).bind pool.get? with
+      | some a => (pool, .bool (uniformT a))
+      | none => (pool, err "no handle")
     | "$immut", [hn, h] =>
       match strOf? hn, (strOf? h).bind pool.get? with
       | some hn, some a => (pool.set hn (immut a), .str "$ok")
